@@ -265,10 +265,16 @@ class Checker:
           return False
         continue
       last = vals[-1].new_value
+      if isinstance(last, type(fdl_history.DELETED)) and last is not fdl_history.DELETED:
+        self.viols.append(V('last-entry-not-current',
+                            f'thread {tid} {label}: history of {k!r} ends with a '
+                            'look-alike of the deletion marker, not history.DELETED',
+                            op=label))
+        return False
       if src_last.get(k) == vals[-1].sequence_id:
         continue
       if cur is ABSENT:
-        ok = isinstance(last, type(fdl_history.DELETED))
+        ok = last is fdl_history.DELETED     # the marker itself, also after a pickle round trip
       else:
         ok = (not isinstance(last, type(fdl_history.DELETED))) and same_value(last, cur)
       if not ok:
@@ -384,7 +390,7 @@ class Checker:
           self.bump('value_entries')
           last, cur = vals[-1].new_value, a_args.get(k, ABSENT)
           if cur is ABSENT:
-            good = isinstance(last, type(fdl_history.DELETED))
+            good = last is fdl_history.DELETED
           else:
             good = (not isinstance(last, type(fdl_history.DELETED))
                     and same_value(last, cur))
